@@ -104,6 +104,10 @@ CHECKS = {
                 text="Uninitialised memory is treated as an environment answer the harness owns: a deterministic list of ~1800 workloads (encoder, round trips, decoder on independently built frames incl. cuts/padding, reassembly, TECMP conversion, builders x prior contents, serialised default headers/packets, status tracker) is executed under two environments that differ in every fresh stack byte (-ftrivial-auto-var-init=zero vs =pattern) and heap byte (MALLOC_PERTURB_ + heap churn); all output digests must agree; the list (quick: one workload per output shape, thorough: all) also runs under valgrind memcheck with a definedness check on every output buffer, which also reports decisions on uninitialised values.",
                 note="Two fill patterns decide dependence on uninitialised content; valgrind decides definedness on the executed paths only. MSan is unusable here without an instrumented libstdc++.",
                 technique="exhaustive enumeration of a workload list x environment answers for uninitialised memory (differential) + definedness monitor on every output"),
+    "C19": dict(level="model_checking", design="4/C19",
+                text="Five thread bodies (encoder, decoder, static TECMP decoder, status tracker, builders/values), each on its own objects and parameterised by a thread-unique value, run as real pthreads under a serialising scheduler; scheduling points are inserted by the compiler (sanitizer coverage). Explored exhaustively: all interleavings at API level for all 15 body pairs, all schedules with <= 1 preemption at function-entry level for all pairs and at basic-block level for same-body pairs, <= 2 preemptions for two same-body pairs (thorough: <= 2 for all pairs, <= 1 at basic-block level for all pairs, 3-thread sets). Per schedule: digests equal the solo run, ASan clean, and a confinement monitor over every library load/store reports any granule touched by two threads with a write. A separate free-running ThreadSanitizer pass covers what a serialising scheduler hides from a race detector.",
+                note="Preemption inside uninstrumented libstdc++/libc and weak-memory effects are not modelled; k > 2 at function granularity is not explored.",
+                technique="stateless model checking: preemption-bounded exhaustive schedule exploration of the real code under a controlled scheduler, plus free-running TSan pass"),
 }
 
 PENDING_REASON = "check under construction (see DESIGN.md section 4); will be claimed once its engine is committed"
